@@ -21,6 +21,9 @@ Theorem C05_leaf : forall p msg d cs n,
     (dt_fam d = k_errno /\
      exists pe, dt_full d = Some (PlErrno pe) /\ str_eqb (en_arch pe) this_arch = false /\
                 e = Leaf (node_oid e) (LOpaqueErrno msg pe)) \/
+    (dt_fam d = k_opaqueErrno /\
+     exists pe, dt_full d = Some (PlErrno pe) /\ str_eqb (en_arch pe) this_arch = true /\
+                e = Leaf (node_oid e) (LErrno (en_errno pe))) \/
     (dt_full d = Some PlTestError /\ e = Leaf (node_oid e) LTestError))).
 Proof. exact decode_leaf_cases. Qed.
 Print Assumptions C05_leaf.
